@@ -706,4 +706,8 @@ def pctEncodedOk : Str → Bool
 
 def atMostOneHash (s : Str) : Bool := (s.filter (· == '#')).length ≤ 1
 
+/-- RFC 3986 §3.1, §4.2: a URI reference does not begin with ':' (a scheme is not empty, and the first segment of a relative
+path contains no colon) -/
+def noLeadingColon (s : Str) : Bool := s.head? != some ':'
+
 end EPV.XSD
